@@ -52,7 +52,13 @@ fn error_path_sweep(_rep: &Arc<Reporter>, args: &Args) -> u64 {
     let ok = format!("Basic {}", basic("dave-CANARYU9", "pw-CANARYP9"));
     let bad = format!("Basic {}", basic("dave-CANARYU9", "wrong-CANARYPX"));
     let mut n = 0u64;
-    let auths: Vec<Option<Vec<u8>>> = vec![None, Some(ok.clone().into_bytes()), Some(bad.into_bytes()), Some(b"Bearer CANARYBEARER-token".to_vec()), Some([b"Basic ".to_vec(), vec![0xff, 0xfe], b"CANARYRAW".to_vec()].concat())];
+    let auths: Vec<Option<Vec<u8>>> = vec![None, Some(ok.clone().into_bytes()), Some(bad.into_bytes()), Some(b"Bearer CANARYBEARER-token".to_vec()), Some([b"Basic ".to_vec(), vec![0xff, 0xfe], b"CANARYRAW".to_vec()].concat()),
+        // values without a space between "scheme" and secret: the whole value is the secret
+        Some(basic("dave-CANARYU9", "pw-CANARYP9").into_bytes()), Some(format!("Basic:{}", basic("dave-CANARYU9", "pw-CANARYP9")).into_bytes()),
+        Some(format!("Basic\t{}", basic("dave-CANARYU9", "pw-CANARYP9")).into_bytes()), Some(format!("Basic{}", basic("dave-CANARYU9", "pw-CANARYP9")).into_bytes()),
+        Some(format!("Negotiate,{}", basic("dave-CANARYU9", "pw-CANARYP9")).into_bytes())];
+    // the bare token must be found even when the log shows it inside a longer word
+    secrets::plant_str(&basic("dave-CANARYU9", "pw-CANARYP9"));
     let targets: Vec<(&str, String)> = vec![
         ("CONNECT", "ok.dest.test:443".into()), ("CONNECT", "noport.dest.test".into()), ("CONNECT", "_check".into()), ("CONNECT", "_udp2".into()),
         ("GET", "http://_check/".into()), ("GET", "http://origin.dest.test/path?token=public".into()), ("POST", "http://origin.dest.test/submit".into()),
